@@ -86,6 +86,24 @@ Theorem C17_data_files_respect_the_size_limit_across_restarts :
 Proof. exact EngineLimit.limit_from_empty_with_restarts. Qed.
 Print Assumptions C17_data_files_respect_the_size_limit_across_restarts.
 
+(* ... and the files a Merge rewrites (they become data files when the next Open adopts them): whenever a Merge of a
+   database reached by such a history finishes, every file of its output is no longer than DataFileSize or holds a
+   single record. *)
+Theorem C17_rewritten_files_respect_the_size_limit :
+  forall c ops d0 k0 e0 d k rs evs order d' k' evs',
+  db_open c empty_disk = (OpenOk d0 k0, e0) -> Forall EngineLimit.op_small ops -> run (d0, k0) ops = ((d, k), rs, evs) ->
+  db_merge d k order = (d', k', None, evs') ->
+  exists md, k_merge k' = Some md /\
+    forall i f, In (i, f) (m_files md) -> lf_size f <= c_fsize c \/ EngineLimit.single f.
+Proof.
+  intros c ops d0 k0 e0 d k rs evs order d' k' evs' Ho Hs Hr Hm.
+  destruct (EngineLimit.open_empty_FL _ _ _ _ Ho) as [HF Hc].
+  destruct (EngineLimit.files_respect_the_limit _ _ _ _ _ _ _ HF Hs Hr) as [HF' Hc'].
+  destruct (EngineLimit.merge_output_respects_the_limit _ _ _ _ _ _ HF' Hm) as (md & A & B).
+  exists md. split; [exact A|]. rewrite Hc', Hc in B. exact B.
+Qed.
+Print Assumptions C17_rewritten_files_respect_the_size_limit.
+
 (* the estimate covers the growth of the file, for every writer position and every record *)
 Theorem C17_estimate_covers_every_append :
   forall io nm fid f r f' p evs, EngineLimit.rec_small r -> lf_append io nm fid f r = (f', p, evs) ->
